@@ -30,12 +30,16 @@ type Loop struct {
 	Got  []Delivered
 	Stop func()
 	Err  error
+
+	kept     []midi.Message
+	keptCopy [][]byte
 }
 
 // Options selects listen options.
 type Options struct {
 	SysEx, TimeCode, ActiveSense bool
 	BufSize                      uint32
+	Reversed                     bool // pass the options in the opposite order (the result must not depend on it)
 }
 
 func (o Options) List() []midi.Option {
@@ -52,6 +56,11 @@ func (o Options) List() []midi.Option {
 	if o.BufSize != 0 {
 		l = append(l, midi.SysExBufferSize(o.BufSize))
 	}
+	if o.Reversed {
+		for i, j := 0, len(l)-1; i < j; i, j = i+1, j-1 {
+			l[i], l[j] = l[j], l[i]
+		}
+	}
 	return l
 }
 
@@ -60,7 +69,7 @@ func (o Options) String() string {
 }
 
 // All enables every option.
-func All(buf uint32) Options { return Options{true, true, true, buf} }
+func All(buf uint32) Options { return Options{SysEx: true, TimeCode: true, ActiveSense: true, BufSize: buf} }
 
 // NewLoop opens a fresh port pair and starts listening through midi.ListenTo.
 func NewLoop(o Options) *Loop {
@@ -71,11 +80,28 @@ func NewLoop(o Options) *Loop {
 	l.In, l.Out = ins[0], outs[0]
 	l.Stop, l.Err = midi.ListenTo(l.In, func(m midi.Message, ts int32) {
 		l.Got = append(l.Got, Delivered{Msg: append([]byte(nil), m...), TS: ts})
+		// a receiver may keep the message it was handed: remember the very slice
+		l.kept = append(l.kept, m)
+		l.keptCopy = append(l.keptCopy, append([]byte(nil), m...))
+		if len(l.kept) > 64 {
+			l.kept, l.keptCopy = l.kept[32:], l.keptCopy[32:]
+		}
 	}, o.List()...)
 	if l.Err == nil {
 		l.Err = l.Out.Open()
 	}
 	return l
+}
+
+// Overwritten reports a message that was handed to the listener earlier and
+// whose bytes have changed since (a buffer shared between deliveries).
+func (l *Loop) Overwritten() (was, now []byte, yes bool) {
+	for i := range l.kept {
+		if string(l.kept[i]) != string(l.keptCopy[i]) {
+			return l.keptCopy[i], l.kept[i], true
+		}
+	}
+	return nil, nil, false
 }
 
 // Relisten stops the current listener and listens again on the same port with
